@@ -48,6 +48,48 @@ pub fn check_frame(addr: u16, ty: u8, data: &[u8], rep: &mut Report) {
         if owned != borrowed {
             bad.push(("owned_ne_borrowed", "equal frames".into(), "owned != borrowed".into()));
         }
+        // "decodes to an equal frame" only means something if equality itself is the equality of the three fields:
+        // copies are equal and hash alike, and a frame that differs in any one field is a different frame
+        {
+            use std::hash::{Hash, Hasher};
+            let h = |f: &Frame<'_>| {
+                let mut x = std::collections::hash_map::DefaultHasher::new();
+                f.hash(&mut x);
+                x.finish()
+            };
+            let copy = owned.clone();
+            let copy_b = borrowed.clone();
+            if copy != owned || copy_b != borrowed || copy_b != owned || h(&copy) != h(&owned) || h(&borrowed) != h(&owned) {
+                bad.push(("clone_or_hash_differs", "clones equal, equal hashes".into(), format!("clone {:?}", copy)));
+            }
+            let mut longer = data.to_vec();
+            let mut changed = data.to_vec();
+            let mut variants: Vec<Frame<'_>> = vec![
+                Frame::new(Address(addr.wrapping_add(1)), MsgType(ty), Data::try_new(data).expect("<=255")),
+                Frame::new(Address(addr ^ 0x8000), MsgType(ty), Data::try_new(data).expect("<=255")),
+                Frame::new(Address(addr ^ 0x0100), MsgType(ty), Data::try_new(data).expect("<=255")),
+                Frame::new(Address(addr), MsgType(ty.wrapping_add(1)), Data::try_new(data).expect("<=255")),
+                Frame::new(Address(addr), MsgType(ty ^ 0x80), Data::try_new(data).expect("<=255")),
+            ];
+            if longer.len() < 255 {
+                longer.push(0);
+                variants.push(Frame::new(Address(addr), MsgType(ty), Data::try_new(longer).expect("<=255")));
+            }
+            if !changed.is_empty() {
+                let k = changed.len() - 1;
+                changed[k] ^= 1;
+                variants.push(Frame::new(Address(addr), MsgType(ty), Data::try_new(changed.clone()).expect("<=255")));
+                changed[k] ^= 1;
+                changed[0] ^= 0x80;
+                variants.push(Frame::new(Address(addr), MsgType(ty), Data::try_new(changed).expect("<=255")));
+                variants.push(Frame::new(Address(addr), MsgType(ty), Data::try_new(&data[..data.len() - 1]).expect("<=255")));
+            }
+            for v in &variants {
+                if *v == owned || owned == *v || *v == borrowed {
+                    bad.push(("different_frames_compare_equal", format!("{:?} != {}", v, sig), "equal".into()));
+                }
+            }
+        }
         for (label, f) in [("owned", &owned), ("borrowed", &borrowed)] {
             let got = f.to_bytes();
             if got != want {
